@@ -26,6 +26,10 @@ def classify_is(name):
     return g_is(lambda x: mentions_call(x, r"OutstationSession::classify$"), name)
 
 
+def session_bodies(prog):
+    return [b for b in prog.bodies.values() if b.path.startswith("dnp3::outstation::session::") and "::tests::" not in b.path]
+
+
 def r1(ctx):
     prog = ctx.prog
     for d in DISPATCHERS:
@@ -253,6 +257,24 @@ def r6(ctx):
                 if d2.local == L and d2.proj and b2.idx in after:
                     late.append(b2.idx)
             ctx.check(not late, "record-after-last-update@%s" % name, "`%s` is stored into last_valid_request after its last update" % (body.local_name(L) or "_%d" % L), body.where(b.idx), bad_detail="`%s` is copied into last_valid_request and modified afterwards (%s): the remembered response is not the one transmitted" % (body.local_name(L) or "_%d" % L, ", ".join(body.where(x) for x in late[:3])))
+    # the record is only ever REPLACED by another record: outside SessionState::new / reset nothing stores a possibly-None value
+    # (a stray CONFIRM or a broadcast received in idle yields no record and must leave the previous one alone)
+    for body in session_bodies(prog):
+        if re.search(r"SessionState::(new|reset)$", body.path):
+            continue
+        for b, si, st in body.assigns():
+            if not st.dest.proj or st.dest.proj[-1] != ".last_valid_request":
+                continue
+            rv = st.rv
+            for _ in range(3):
+                if rv["k"] == "use" and not rv["a"].is_const() and rv["a"].place.is_local():
+                    ds = [d_ for d_ in body.defs.get(rv["a"].place.local, []) if d_[0] in body.live_blocks() and d_[1] != "term"]
+                    if len(ds) == 1:
+                        rv = body.blocks[ds[0][0]].stmts[ds[0][1]].rv
+                        continue
+                break
+            ok = rv["k"] == "agg" and rv.get("var") == "Some"
+            ctx.check(ok, "record-never-erased@%s" % short(body.path), "last_valid_request is assigned Some(..)", body.where(b.idx), bad_detail="%s assigns a value to last_valid_request that may be None: a fragment that yields no record (stray CONFIRM, broadcast) erases the previous one and its retransmission is executed again" % short(body.path))
     # every request-bearing non-READ arm records the request (seq + digest of THIS request), response or not
     cl = lambda x: mentions_call(x, r"OutstationSession::classify$")
     ib_ = prog.abody("OutstationSession::process_request_from_idle")
